@@ -1,6 +1,7 @@
 ----------------------------- MODULE Gen_Paths -----------------------------
 (* C20, exhaustive: every spelling of the table x MaxIdx x EnableNumKeys x
-   position in the key (single key, first / middle / last dotted segment).
+   position in the key (single key, first / middle / last dotted segment) x the
+   key wrapped in [ ] or not x EscapePath on / off.
    The same module checks the model-level invariants (Gen and MC coincide:
    the universe is small) and prints one replayable case per combination.   *)
 EXTENDS UcfgPaths, Layers, Json, SequencesExt
@@ -23,29 +24,39 @@ KeyAt(sp, pos) == CASE pos = "single" -> <<sp>>
                     [] pos = "middle" -> <<Nm("k"), sp, Nm("q")>>
                     [] pos = "last"   -> <<Nm("k"), sp>>
 
+\* EscapePath: a key that is wholly wrapped in [ ] is ONE name (brackets included), whatever it contains; without the
+\* option the brackets are ordinary characters of the first and the last segment (which makes both of them names)
+RECURSIVE JoinSp(_)
+JoinSp(key) == IF Len(key) = 1 THEN key[1].s ELSE key[1].s \o "." \o JoinSp(Tail(key))
+EffKey(key, br, esc) ==
+  IF ~br THEN key
+  ELSE IF esc \/ Len(key) = 1 THEN <<Nm("[" \o JoinSp(key) \o "]")>>
+  ELSE [j \in 1..Len(key) |-> IF j = 1 THEN Nm("[" \o key[1].s) ELSE IF j = Len(key) THEN Nm(key[j].s \o "]") ELSE key[j]]
+
 VARIABLES sp, cs
 vars == <<sp, cs>>
 Out(D, key, m, nk) == LET r == TreeOfKey(D, key, m, nk) IN
                       IF IsErr(r) THEN [err |-> r.err] ELSE [ok |-> ObsTop(AsCfg(r.ok)), maxlen |-> MaxListLen(r.ok)]
-Case(pos, m, nk) ==
+Case(pos, m, nk, br, esc) ==
   LET key   == KeyAt(sp, pos)
-      ideal == Out({}, key, m, nk)
-      alts  == {[devs |-> DS, out |-> Out(DS, key, m, nk)] : DS \in DevSets}
+      ek    == EffKey(key, br, esc)
+      ideal == Out({}, ek, m, nk)
+      alts  == {[devs |-> DS, out |-> Out(DS, ek, m, nk)] : DS \in DevSets}
       diff  == {x \in alts : x.out # ideal}
-  IN [key |-> key, pos |-> pos, maxidx |-> m, numkeys |-> nk,
-      isindex |-> IsIndex({}, sp, Len(key), m, nk),
+  IN [key |-> key, pos |-> pos, maxidx |-> m, numkeys |-> nk, br |-> br, esc |-> esc,
+      isindex |-> ~br /\ IsIndex({}, sp, Len(key), m, nk),
       exp |-> [ideal |-> ideal, alts |-> SetToSeq(diff)]]
 
 Init == sp \in Spellings /\ cs = <<>>
 Next == /\ cs = <<>>
-        /\ \E pos \in Positions, m \in MaxIdxs, nk \in BOOLEAN :
-              cs' = <<pos, m, nk>> /\ PrintT(ToJson(Case(pos, m, nk)))
+        /\ \E pos \in Positions, m \in MaxIdxs, nk \in BOOLEAN, br \in BOOLEAN, esc \in BOOLEAN :
+              cs' = <<pos, m, nk, br, esc>> /\ PrintT(ToJson(Case(pos, m, nk, br, esc)))
         /\ UNCHANGED sp
 View == <<sp, cs = <<>> >>
 
 (* model-level statements of C20 *)
 Combo == cs # <<>>
-KeyNow == KeyAt(sp, cs[1])
+KeyNow == EffKey(KeyAt(sp, cs[1]), cs[4], cs[5])
 Res == TreeOfKey({}, KeyNow, cs[2], cs[3])
 \* no single key makes a list grow beyond MaxIdx+1 entries, and nothing panics
 AllocBound == Combo => (~IsErr(Res) /\ MaxListLen(Res.ok) <= cs[2] + 1)
@@ -58,4 +69,6 @@ HasNamePath(t, ck, j) ==
 RoundTrip == Combo => HasNamePath(Res.ok, Classify({}, KeyNow, cs[2], cs[3]), 1)
 \* with EnableNumKeys a numeric single-segment key is always a name
 NumKeysNamed == (Combo /\ cs[3] /\ cs[1] = "single") => ~IsIndex({}, sp, 1, cs[2], TRUE)
+\* a bracketed key never addresses a list: with EscapePath it is one name, without it its first and last segment are names
+BracketsAreNames == (Combo /\ cs[4]) => (KeyNow[1].lit = FALSE /\ KeyNow[Len(KeyNow)].lit = FALSE /\ (cs[5] => Len(KeyNow) = 1))
 ==========================================================================
